@@ -377,7 +377,7 @@ pub fn worker(prop: &dyn Property, tier: Tier, seed: u64, shard: usize, nshards:
 				cases: cases as u32,
 				failure_persistence: None,
 				max_shrink_iters: 4000,
-				max_shrink_time: 0,
+				max_shrink_time: 60_000,
 				verbose: 0,
 				..Config::default()
 			};
@@ -628,6 +628,7 @@ pub fn find_signature(prop: &dyn Property, sig_prefix: &str, seed: u64, max_case
 		cases: max_cases as u32,
 		failure_persistence: None,
 		max_shrink_iters: 4000,
+		max_shrink_time: 60_000,
 		..Config::default()
 	};
 	let mut runner = TestRunner::new_with_rng(config, shard_rng(seed, 999, prop.id()));
